@@ -15,21 +15,21 @@ META = {
   "h_whole_line": {"kind": "L", "stub": False,
     "functions": ["Line.__new__/__init__", "Construction._subclass*", "Segment._subclass", "Creators.add_line", "Gfa.__init__", "Comment/CustomRecord construction", "Line.__str__/validate"],
     "bounds": "every string of length <= 2 (quick) / 3 (thorough) over a 12-character alphabet (record letters S L H # X, tab, space, '*', '+', digit, ':', newline) offered as a line to gfapy.Line, Gfa.add_line and as a whole document to Gfa(text), vlevel 0..3, version None/gfa1/gfa2; followed by str() and validate()",
-    "timeout": {"quick": 400, "thorough": 1200}, "parts": {"quick": 16, "thorough": 16}},
+    "timeout": {"quick": 400, "thorough": 900}, "parts": {"quick": 16, "thorough": 16}},
   "h_field_mutation": {"kind": "L", "stub": False,
     "functions": ["every <datatype>.decode/unsafe_decode/validate_encoded/validate_decoded/encode", "Field._parse_gfa_field/_parse_gfa_tag", "Line.__init__", "Line.get/field_to_s/validate/validate_field/__str__/clone",
                   "LastPos", "Alignment", "CIGAR", "Trace", "NumericArray", "ByteArray", "json"],
     "bounds": "30 (record, focus field) templates (every positional datatype and every tag datatype, incl. whole-tag and tag-name positions) x every string of length <= 1 (quick) / 2 (thorough) over an 18-character alphabet in the focus position x vlevel 0..3: construction, every getter, field_to_s, str, validate, validate_field, clone raise nothing but gfapy.Error",
-    "timeout": {"quick": 400, "thorough": 1200}, "parts": {"quick": 16, "thorough": 16}},
+    "timeout": {"quick": 400, "thorough": 900}, "parts": {"quick": 16, "thorough": 16}},
   "h_document_mutation": {"kind": "G", "stub": False,
     "functions": ["Gfa.__init__/add_line/validate/__str__", "Connection.connect", "*/references._initialize_references", "VirtualToReal", "Multiline", "SameID", "process_line_queue"],
     "bounds": "2 documents (GFA1 incl. paths and ID-tagged links, GFA2 incl. E/F/G/O/U/custom): single-point mutation at EVERY character position (quick: every 3rd) with replacement from an 8-character alphabet (tab, space, '*', '+', ',', digit, letter, '$'), deletion, and insertion of a tab; vlevel 1 and 3: Gfa(text), str, validate, names, segment/edge traversals raise nothing but gfapy.Error",
-    "timeout": {"quick": 400, "thorough": 1200}, "parts": {"quick": 16, "thorough": 16}},
+    "timeout": {"quick": 400, "thorough": 900}, "parts": {"quick": 16, "thorough": 16}},
   "h_api_strings": {"kind": "G", "stub": False,
     "functions": ["Finders.line/segment/try_get_line/try_get_segment", "Destructors.rm", "FieldData.set/get/try_get/delete", "DynamicFields.__getattr__/__setattr__", "Line.validate_field/set_datatype/get_datatype",
                   "Gfa.segment_connected_component/linear_path/multiply (unknown ids)"],
     "bounds": "GFA1 and GFA2 state x 25 API calls taking an identifier, field name or a line mentioning it x every string of length <= 1 (quick) / 2 (thorough) over a 12-character alphabet (existing ids, '*', '', tab, digits) as argument, and 8 (field, value) assignments with string values of length <= 2",
-    "timeout": {"quick": 400, "thorough": 1200}, "parts": {"quick": 16, "thorough": 16}},
+    "timeout": {"quick": 400, "thorough": 900}, "parts": {"quick": 16, "thorough": 16}},
  },
 }
 
